@@ -1,5 +1,6 @@
 import Liquid.Value
 import Liquid.F64
+import Liquid.Time
 /-!
 # `fmt.Sprint` and `render.writeObject` (DESIGN §4.3, Appendix A.4/A.7)
 
@@ -15,11 +16,17 @@ import Liquid.F64
 * slices/arrays `[a b c]`, maps `map[k:v k:v]` with the keys sorted as `internal/fmtsort` does
   (same dynamic key type: by value; mixed dynamic key types are ordered by type *address* and are
   `unmodelled`), `yaml.MapSlice` `[{k v} {k v}]`, `Range` `{a b}`, structs `{f1 f2}`, the harness's
-  drop type `struct{ v any }` `{inner}`; a nil pointer `<nil>`; non-nil pointers (an address) and
-  `time.Time` are `unmodelled`.
+  drop type `struct{ v any }` `{inner}`; a nil pointer `<nil>`; non-nil pointers (an address) are
+  `unmodelled`;
+* `time.Time` is a `fmt.Stringer`: `Time.String()` = `Format("2006-01-02 15:04:05.999999999 -0700 MST")`
+  plus the monotonic reading. The model's times are `time.Unix(u, 0).UTC()`: no fraction, no
+  monotonic reading, offset `+0000`, zone `UTC` (`timeString`; `$GOROOT/src/time/format.go`).
 
 `writeObject v` models `render/render.go:writeObject` *after* the D23 repair (whole floats below
-10^21 are written in plain decimal instead of `%v`'s exponent form).
+10^21 are written in plain decimal instead of `%v`'s exponent form); a `time.Time` is written as
+`value.Format("2006-01-02 15:04:05 -0700")` (`timeObjectText`). `Format` prints the year with
+`appendInt(b, year, 4)`: a minus sign for a negative year, then at least four digits (`-0001`,
+`0000`, `10000`), so the text is modelled for every year, not only 0..9999.
 -/
 
 /-! ## decimal digits -/
@@ -158,6 +165,30 @@ def fmtFloatF (k : FltKind) (q : Rat) : Res Cause Bytes :=
     let body := fmtF ds dp
     .ok (if neg then 45 :: body else body)
 
+/-! ## `time.Time.Format` for a UTC time with whole seconds -/
+
+/-- `time.appendInt(b, x, width)`: sign, then the decimal digits zero-padded to `width` -/
+def appendInt (x : Int) (width : Nat) : Bytes :=
+  let ds := natDec x.natAbs
+  (if x < 0 then [45] else []) ++ zeros (width - ds.length) ++ ds
+
+/-- `2006-01-02 15:04:05` -/
+def timeDateClock (t : Cal.Broken) : Bytes :=
+  appendInt t.year 4 ++ 45 :: appendInt t.month 2 ++ 45 :: appendInt t.day 2 ++ 32 ::
+    appendInt t.hour 2 ++ 58 :: appendInt t.min 2 ++ 58 :: appendInt t.sec 2
+
+def notModelledTime : String := "time.Time: instant beyond ±2^62 s (Go's int64 arithmetic wraps near the ends)"
+
+/-- `t.Format("2006-01-02 15:04:05 -0700")` for `t = time.Unix(u, 0).UTC()` -/
+def timeObjectText (u : Int) : Res Cause Bytes :=
+  if Cal.timeModelled u then .ok (timeDateClock (Cal.broken u) ++ [32, 43, 48, 48, 48, 48])
+  else .unmodelled notModelledTime
+
+/-- `t.String()` for `t = time.Unix(u, 0).UTC()`: `2006-01-02 15:04:05 +0000 UTC` -/
+def timeString (u : Int) : Res Cause Bytes :=
+  if Cal.timeModelled u then .ok (timeDateClock (Cal.broken u) ++ [32, 43, 48, 48, 48, 48, 32, 85, 84, 67])
+  else .unmodelled notModelledTime
+
 /-! ## map key order of `internal/fmtsort` -/
 
 /-- `some (a < b)` when fmtsort's order of two keys is determined by their values -/
@@ -196,6 +227,30 @@ def mapText (entries : List (GoVal × Bytes)) : Res Cause Bytes :=
 /-! ## `fmt.Sprint` -/
 
 mutual
+/-- a `time.Time` occurs somewhere in the value -/
+def GoVal.hasTime : GoVal → Bool
+  | .time _ => true
+  | .slice _ xs => hasTimeList xs
+  | .array _ xs => hasTimeList xs
+  | .map _ _ kvs => hasTimeKVs kvs
+  | .mapSlice kvs => hasTimeKVs kvs
+  | .keyedMap kvs => hasTimeFields kvs
+  | .struct fs => hasTimeFields fs
+  | .ptr v => v.hasTime
+  | .drop v => v.hasTime
+  | _ => false
+def hasTimeList : List GoVal → Bool
+  | [] => false
+  | x :: xs => x.hasTime || hasTimeList xs
+def hasTimeKVs : List (GoVal × GoVal) → Bool
+  | [] => false
+  | (k, v) :: r => k.hasTime || v.hasTime || hasTimeKVs r
+def hasTimeFields : List (Bytes × GoVal) → Bool
+  | [] => false
+  | (_, v) :: r => v.hasTime || hasTimeFields r
+end
+
+mutual
 def sprint : GoVal → Res Cause Bytes
   | .nil => .ok [60, 110, 105, 108, 62]
   | .bool true => .ok [116, 114, 117, 101]
@@ -212,9 +267,13 @@ def sprint : GoVal → Res Cause Bytes
   | .range a b => .ok (bracket 123 125 (intDec a ++ 32 :: intDec b))
   | .ptr _ => .unmodelled "fmt: a pointer prints as an address"
   | .nilPtr => .ok [60, 110, 105, 108, 62]
-  | .drop v => (sprint v).bind fun b => .ok (bracket 123 125 b)
+  | .drop v =>
+    -- the harness's drop type has one *unexported* field: below it `fmt` may not call methods, so a
+    -- `time.Time` there is printed as the struct `{wall ext loc}`, not through `String()`
+    if v.hasTime then .unmodelled "fmt: a time.Time below an unexported field prints as a struct"
+    else (sprint v).bind fun b => .ok (bracket 123 125 b)
   | .struct fs => (sprintFields fs).bind fun es => .ok (bracket 123 125 (joinSp (es.map (·.2))))
-  | .time _ => .unmodelled "fmt: time.Time"
+  | .time u => timeString u
 def sprintAll : List GoVal → Res Cause (List Bytes)
   | [] => .ok []
   | x :: xs => (sprint x).bind fun b => (sprintAll xs).bind fun bs => .ok (b :: bs)
@@ -242,7 +301,7 @@ mutual
 /-- `writeObject` after its `ToLiquid` step -/
 def writeObjectL : GoVal → Res Cause Bytes
   | .nil => .ok []
-  | .time _ => .unmodelled "time.Time.Format"
+  | .time u => timeObjectText u
   | .bytes s => .ok s
   | .flt k q => if isWholeSmall q then fmtFloatF k q else fmtFloatG k q
   | .slice _ xs => writeObjects xs
